@@ -14,6 +14,9 @@ CONSTANTS
   AllowExtClose = TRUE
   MaxUnsolicited = 0
   MaxAnswers = 1
+  HBReq = {}
+  HBMaxFail = 1
+  TimeoutLimit = 0
   Mut = "none"
 INVARIANTS TypeOK NoMisroute NoReuseWhileOutstanding UniqueHold NoDupRefusal OutcomeAllowed ReleaseOnce Conservation NoLeak
 PROPERTIES OutcomeOnce RequestEnds CloseReturns CloseUnblocks
